@@ -129,4 +129,65 @@ namespace vh
         return "ctl=" + ctl + " exec=" + std::string(result_name(res)) + " state=" + std::string(state_name(v.rt->runtime_state())) +
             " contexts=" + std::to_string(n) + " | tr=" + (ns->contains("tr") ? render_value(ns->at("tr")) : std::string("undef"));
     }
+
+    // ctl4 <program> <outer actions> <k> <injected actions>: the outer actions are executed one after another as in ctl; right
+    // before the (k+1)-th instruction executed by them altogether (hook verif_before_instruction, executing thread, run flag
+    // held) the injected actions are issued once. Output: that of ctl, then " | ctl=<results of the injected actions>@<index of the
+    // outer action that was executing, or ->"
+    inline std::string verb_ctl4(const std::vector<std::string>& f)
+    {
+        std::string text = f.size() > 0 ? f[0] : std::string();
+        std::string actions = f.size() > 1 ? f[1] : std::string();
+        size_t k = f.size() > 2 && !f[2].empty() ? (size_t)std::stoul(f[2]) : 0;
+        std::string injected = f.size() > 3 ? f[3] : std::string();
+        vclock_start(0, 1);
+        auto v = make_vm(regmode::real);
+        auto set = v.rt->parser_sqf().parse(*v.rt, text, sqf::runtime::fileio::pathinfo(std::string("f"), std::string()));
+        if (!set.has_value()) { vclock_stop(); return "parse-error"; }
+        auto context = v.rt->context_create().lock();
+        context->push_frame(sqf::runtime::frame(v.rt->default_value_scope(), *set));
+        auto to_action = [](char a, sqf::runtime::runtime::action& act) {
+            switch (a)
+            {
+            case 'S': act = sqf::runtime::runtime::action::start; return true;
+            case 'T': act = sqf::runtime::runtime::action::stop; return true;
+            case 'A': act = sqf::runtime::runtime::action::abort; return true;
+            case 'a': act = sqf::runtime::runtime::action::assembly_step; return true;
+            case 'l': act = sqf::runtime::runtime::action::line_step; return true;
+            case 'v': act = sqf::runtime::runtime::action::leave_scope; return true;
+            default: return false;
+            }
+        };
+        std::string ctl;
+        std::string fired_at = "-";
+        size_t seen = 0;
+        size_t outer_index = 0;
+        v.rt->verif_before_instruction = [&]() {
+            if (seen++ != k) { return; }
+            fired_at = std::to_string(outer_index);
+            for (char a : injected)
+            {
+                sqf::runtime::runtime::action act;
+                if (!to_action(a, act)) { continue; }
+                auto r = v.rt->execute(act);
+                if (!ctl.empty()) { ctl.push_back(','); }
+                ctl += result_name(r);
+            }
+        };
+        std::string out = "init:" + std::string(state_name(v.rt->runtime_state())) + ":" + ctl_position(*v.rt);
+        for (char a : actions)
+        {
+            sqf::runtime::runtime::action act;
+            if (!to_action(a, act)) { out += " ; bad-action"; outer_index++; continue; }
+            auto res = v.rt->execute(act);
+            out += " ; " + std::string(result_name(res)) + ":" + std::string(state_name(v.rt->runtime_state())) + ":" + ctl_position(*v.rt);
+            outer_index++;
+        }
+        v.rt->verif_before_instruction = nullptr;
+        vclock_stop();
+        auto ns = v.rt->default_value_scope();
+        out += " | tr=" + (ns->contains("tr") ? render_value(ns->at("tr")) : std::string("undef"));
+        out += " | ctl=" + ctl + "@" + fired_at;
+        return out;
+    }
 }
